@@ -201,6 +201,41 @@ def rmulPy (m : Option Int) (e : Equil α) : Except String (Equil α) :=
   | none => .error "TypeError"
   | some n => rmul n e
 
+/-- what `Equilibrium.__rmul__` finds when it reads `other.is_integer` (l. 1192-1199) -/
+inductive IsIntegerAttr where
+  /-- `AttributeError`: `str`, `None`, `complex`, `Decimal`, containers … -/
+  | missing
+  /-- a callable (`int`, `bool`, `float`, `Fraction`, numpy scalars): the code calls it and uses what it returns -/
+  | method (returns : Bool)
+  /-- a plain attribute (sympy: `True`, `False` or `None`) -/
+  | value (v : Option Bool)
+
+/-- a multiplier as `__rmul__` sees it: the `is_integer` attribute, `isinstance(other, int)`, and its numeric value
+    (used by `param ** other`, `other < 0`, `int(other)`; irrelevant for refused objects) -/
+structure PyMul where
+  attr : IsIntegerAttr
+  isPyInt : Bool
+  val : Rat
+
+/-- `other_is_int` as the code computes it: attribute missing → `isinstance(other, int)`; callable → its result; else its truthiness -/
+def PyMul.accepted (m : PyMul) : Bool :=
+  match m.attr with
+  | .missing => m.isPyInt
+  | .method r => r
+  | .value v => v == some true
+
+/-- `m * e` / `e * m` for an arbitrary Python object `m`: refused (`NotImplemented` → `TypeError`) unless `other_is_int`; an accepted
+    multiplier is used through its integer value. An object that claims to be integral but is not (`accepted` with a fractional
+    value — what the unfixed code made of every float) has no consistent meaning: outcome `!non-integral-accepted`, delimited by
+    `PyMul.Sound`. -/
+def rmulMul (m : PyMul) (e : Equil α) : Except String (Equil α) :=
+  if m.accepted then
+    (if m.val.den = 1 then rmul m.val.num e else .error "!non-integral-accepted")
+  else .error "TypeError"
+
+/-- objects whose `is_integer` tells the truth (every Python / numpy / sympy number) -/
+def PyMul.Sound (m : PyMul) : Prop := m.accepted = true → m.val.den = 1
+
 /-- `Equilibrium.__neg__`: `-1 * self` -/
 def neg (e : Equil α) : Except String (Equil α) := rmul (-1) e
 
